@@ -333,3 +333,14 @@ func (m *Machine) CheckAll() error {
 	}
 	return nil
 }
+
+// AdoptMachine finishes the initialisation of a machine built around existing trees.
+func AdoptMachine(m *Machine) *Machine {
+	if m.reloaded == nil {
+		m.reloaded = map[*Tree]bool{}
+	}
+	if m.wasEmptied == nil {
+		m.wasEmptied = map[*Tree]bool{}
+	}
+	return m
+}
